@@ -891,6 +891,13 @@ impl Xot {
                 "Cannot add children to non-element and non-document node".into(),
             ));
         }
+        // a node cannot become its own child or a child of one of its
+        // descendants; check this before anything is modified
+        if self.ancestors(parent).any(|ancestor| ancestor == child) {
+            return Err(Error::InvalidOperation(
+                "Cannot move a node under itself or under one of its descendants".into(),
+            ));
+        }
         match self.value_type(child) {
             ValueType::Document => {
                 return Err(Error::InvalidOperation("Cannot move document node".into()));
